@@ -631,20 +631,21 @@ func (e *c34Env) extrasCases(r *rng.R) []c34Case {
 // ---------------------------------------------------------------------------
 
 type c34Result struct {
-	Format               string
-	In                   map[string]any
-	BuildErr, DecodeErr  error
-	C03, C04             []report.Finding
-	Labels               []string
-	Key                  string
-	Built                bool
-	Members              int
-	Checks               []string // driver ops that were evaluated
-	GoChecks             int
-	SegCompared, SegSkip int
-	Err                  error // harness or driver trouble: never silently dropped
-	Notes                []string
-	fam                  string
+	Format                  string
+	In                      map[string]any
+	BuildErr, DecodeErr     error
+	C03, C04                []report.Finding
+	Labels                  []string
+	Key                     string
+	Built                   bool
+	Members                 int
+	Checks                  []string // driver ops that were evaluated
+	GoChecks                int
+	SegCompared, SegSkip    int
+	TarCompared, TarSkipped int   // tar streams sent through the byte-level tar model / left out (not expressible or too large)
+	Err                     error // harness or driver trouble: never silently dropped
+	Notes                   []string
+	fam                     string
 }
 
 func (res *c34Result) f03(shape, what string) {
@@ -1037,6 +1038,44 @@ func (e *c34Env) analyse(fam, format string, s *PkgSpec, data []byte, res *c34Re
 		simple("C04", prefix, "member names of the "+which+" tar", c34Names(dotted, es))
 	}
 
+	// byte-level tar model (GNU format, no extension headers): the stream must be exactly what the model writer
+	// renders from the stream's own decoded members, and the proven Lean reader must agree with the Go reader.
+	// Streams with a member the plain header cannot express (long names, Go-only mode bits, …) are counted, not compared.
+	tarModel := func(which string, stream []byte, es []decode.Entry) {
+		if len(stream) == 0 || len(stream) > e.segCap/4 {
+			res.TarSkipped++
+			return
+		}
+		var req, want strings.Builder
+		fmt.Fprintf(&req, "tarfile %d", len(es))
+		fmt.Fprintf(&want, "%d", len(es))
+		for _, en := range es {
+			if len(en.Name) > 100 || len(en.Linkname) > 100 || len(en.Uname) > 32 || len(en.Gname) > 32 || en.Mode < 0 || en.Mode >= 1<<21 ||
+				en.MTime < 0 || en.MTime >= 1<<33 || en.Size >= 1<<33 || en.Uid < 0 || en.Gid < 0 || len(en.PAX) > 0 || en.Format != "GNU" ||
+				strings.ContainsRune(en.Name, 0) {
+				res.TarSkipped++
+				return
+			}
+			fmt.Fprintf(&req, " %s %d %d %d %d %d %d %s %s %s %s", wire.H(en.Name), en.Mode, en.Uid, en.Gid, en.Size, en.MTime, en.Type,
+				wire.H(en.Linkname), wire.H(en.Uname), wire.H(en.Gname), wire.H(string(en.Body)))
+			fmt.Fprintf(&want, " %s %d %d %d %d %d %d %s %s %s %d", wire.H(en.Name), en.Mode, en.Uid, en.Gid, en.Size, en.MTime, en.Type,
+				wire.H(en.Linkname), wire.H(en.Uname), wire.H(en.Gname), len(en.Body))
+		}
+		res.TarCompared++
+		res.Checks = append(res.Checks, "tarfile", "tarread")
+		ask(req.String(), func(ans string) {
+			got, _ := wire.UnH(ans)
+			if got != string(stream) {
+				res.f04(which+"-tar-bytes-differ-from-model", "the "+which+" tar stream differs from the tar model's rendering of its own members: "+c34FirstDiff(got, string(stream)))
+			}
+		})
+		ask("tarread "+wire.H(string(stream)), func(ans string) {
+			if ans != want.String() {
+				res.f04(which+"-tar-lean-reader-disagrees", fmt.Sprintf("the Lean tar reader answers %.300q, the Go reader found %.300q", ans, want.String()))
+			}
+		})
+	}
+
 	switch format {
 	case "deb":
 		d := dec.Deb
@@ -1131,6 +1170,10 @@ func (e *c34Env) analyse(fam, format string, s *PkgSpec, data []byte, res *c34Re
 		for _, m := range d.Members {
 			res.check(m.Offset%2 == 0, "ar-member-at-odd-offset", "ar member %q starts at odd offset %d", m.Name, m.Offset)
 		}
+		tarModel("data", d.DataTar, d.Data)
+		if ct, err := c34Gunzip(d.ControlRaw, true); err == nil {
+			tarModel("control", ct, d.Control)
+		}
 		res.tarFacts("data", d.DataFacts, true)
 		res.tarFacts("control", d.ControlFacts, true)
 		res.stdTar("data", d.DataTar, len(d.Data))
@@ -1192,6 +1235,11 @@ func (e *c34Env) analyse(fam, format string, s *PkgSpec, data []byte, res *c34Re
 		names(true, "outer", p.Outer)
 		simple("C04", "", fmt.Sprintf("outer members %q of the ipk", c34EntryNames(p.Outer)),
 			fmt.Sprintf("c04ipk %s %s", c34HexList(c34EntryNames(p.Outer)), wire.H(string(p.DebianBinary))))
+		tarModel("data", p.DataTar, p.Data)
+		tarModel("outer", p.OuterTar, p.Outer)
+		if ct, err := c34Gunzip(p.ControlRaw, true); err == nil {
+			tarModel("control", ct, p.Control)
+		}
 		res.tarFacts("outer", p.OuterFacts, true)
 		res.tarFacts("data", p.DataFacts, true)
 		res.tarFacts("control", p.ControlFacts, true)
@@ -1629,7 +1677,7 @@ func c34Script(info *nfpm.Info, sel string) string {
 }
 
 // c34Seg accumulates, over all families, what the apk-segment-model family of C04 reports.
-type c34Seg struct{ Compared, Skipped, Packages int }
+type c34Seg struct{ Compared, Skipped, Packages, TarCompared, TarSkipped int }
 
 // runFamily builds and analyses the cases on all cores (the driver is shared
 // behind its mutex) and records the results in generation order, so that the
@@ -1687,6 +1735,10 @@ func (e *c34Env) runFamily(prop, name, rule string, cases []c34Case, seg *c34Seg
 		}
 		for _, f := range fs {
 			c.Rep.Find(f)
+		}
+		if seg != nil {
+			seg.TarCompared += res.TarCompared
+			seg.TarSkipped += res.TarSkipped
 		}
 		if seg != nil && res.Format == "apk" && res.Built {
 			seg.Compared += res.SegCompared
